@@ -61,7 +61,7 @@ use crate::mqtt::packet::ResponsePacket;
 use crate::mqtt::packet::{Property, TopicAliasRecv, TopicAliasSend};
 use crate::mqtt::prelude::GenericPacketTrait;
 use crate::mqtt::result_code::{
-    ConnectReasonCode, ConnectReturnCode, DisconnectReasonCode, MqttError, PubrecReasonCode,
+    ConnectReasonCode, ConnectReturnCode, DisconnectReasonCode, MqttError,
 };
 
 /// MQTT protocol maximum packet size limit
@@ -3340,7 +3340,8 @@ where
                 if self.pid_pubrec.remove(&packet_id) {
                     self.store.erase(ResponsePacket::V5_0Pubrec, packet_id);
                     let reason_code = packet.reason_code();
-                    if reason_code.is_none() || reason_code.unwrap() == PubrecReasonCode::Success {
+                    // Every success-class code (also "No matching subscribers") continues the exchange
+                    if reason_code.is_none_or(|rc| rc.is_success()) {
                         // The exchange continues with PUBREL/PUBCOMP: keep its id owned so that a
                         // non-persistent close releases it even if the PUBREL was never sent
                         self.pid_pubcomp.insert(packet_id);
